@@ -6,6 +6,8 @@ CONSTANTS
   OrderedMerge = TRUE
   ReadsLeak = FALSE
   OrderedScan = TRUE
+  Aliases = FALSE
 INVARIANT Functional
 INVARIANT Covered
+INVARIANT CallerObjectUntouched
 CHECK_DEADLOCK FALSE
